@@ -1,9 +1,12 @@
 SPECIFICATION Spec
 CONSTANT Kind = "single"
 CONSTANT MaxDepth <- Unbounded
-CONSTANT Deviation = "KeepsCache"
-CONSTANT Setters = FALSE
+CONSTANT Deviation = "none"
+CONSTANT Setters = TRUE
 CONSTANT Export = FALSE
 VIEW AbstractView
+INVARIANT TypeOK
+INVARIANT CacheIsCurrent
 INVARIANT ObsCurrent
+INVARIANT C17_MismatchRejected
 CHECK_DEADLOCK FALSE
